@@ -205,3 +205,34 @@ def check_selfexcl(ctx, m, cfg):
             else:
                 ctx.broken(RULE, "selfexcl %s: a pointer comparison with '%s' exists but the call at %s is not dominated by its not-equal edge" % (f.name, f.args[p]["name"], c.where()))
     return n
+
+
+def check_substrate(ctx, m, cfg):
+    """substrate (C08, C19): _adjustOverageClassII is called in two roles: on a cell centre (substrate = 0, where `pentLeading4` asks for the rotation out of a
+    pentagon's deleted sub-sequence) and on a vertex of the substrate grid (substrate = 1).  The vertex callers (cell boundary, pentagon vertex adjustment,
+    getIcosahedronFaces) are siblings: a vertex is not a cell centre with a leading digit, so every one of them passes pentLeading4 = 0 (directly or through a
+    local that is only ever 0).  A vertex call with substrate = 1 and a pentLeading4 that is not the constant 0 is reported: on the leading-4 sub-sequence of a
+    pentagon base cell the vertex is rotated as if it were a centre and lands on the wrong face.  Non-constant `substrate` is ANALYSIS-BROKEN."""
+    F = "_adjustOverageClassII"
+    n = 0
+    for f in m.defined():
+        for c in f.all_insts():
+            if c.op != "call" or c.callee != F or len(c.ops) < 4:
+                continue
+            sub, p4 = c.ops[3], c.ops[2]
+            if sub[0] != "c":
+                ctx.broken(RULE, "substrate %s: the substrate flag passed to %s at %s is not a constant" % (f.name, F, c.where()))
+                n += 1
+                continue
+            if sub[1] == 0:
+                continue
+            n += 1
+            inst = {"function": f.name, "call": c.where(), "substrate": sub[1], "config": cfg}
+            if p4[0] == "c" and p4[1] == 0:
+                ctx.ok(RULE, inst, "%s adjusts a substrate vertex with pentLeading4 = 0, like its siblings" % f.name)
+            else:
+                ctx.violation(RULE, "substrate:%s:%d" % (f.name, sum(1 for x in f.all_insts() if x.op == "call" and x.callee == F and x.id < c.id)),
+                              "%s calls %s on a substrate-grid vertex (substrate = 1) with a pentLeading4 argument that is not the constant 0: every other vertex caller passes 0, "
+                              "because the leading-digit rotation applies to cell centres only; on the leading-4 sub-sequence of a pentagon base cell the vertex is put on the wrong face"
+                              % (f.name, F), c.where(), inst)
+    return n
